@@ -3,6 +3,7 @@ C12 — ORDER BY returns a correctly sorted permutation; LIMIT its first n rows.
 -/
 import BW.Proofs.Query
 import BW.Proofs.QueryPost
+import BW.Proofs.Determinism
 
 namespace BW.Props.C12
 open BW.Model BW.Proofs.Query BW.Proofs.QueryPost
@@ -55,6 +56,14 @@ theorem pushdown_only_when_harmless (st : Stmt) (h : st.pushedLimit ≠ 0) :
     · exact absurd rfl h
   · exact absurd rfl h
 
+/-- ORDER BY sorts: when the keys compare the rows at hand as a total preorder, every earlier row of the
+    result is ≤ every later one under the composite key comparison (ties are not constrained). -/
+theorem order_by_sorted (S : Strs) (cfg : List (Bytes × Bool)) (rows : List Row) (hcfg : cfg ≠ [])
+    (trans : ∀ a ∈ rows, ∀ b ∈ rows, ∀ c ∈ rows, rowLe S cfg a b = true → rowLe S cfg b c = true → rowLe S cfg a c = true)
+    (total : ∀ a ∈ rows, ∀ b ∈ rows, (rowLe S cfg a b || rowLe S cfg b a) = true) :
+    (sortRows S cfg rows).Pairwise fun a b => rowLe S cfg a b = true :=
+  BW.Proofs.Determinism.sortRows_sorted S cfg rows hcfg trans total
+
 end BW.Props.C12
 
 #print axioms BW.Props.C12.order_by_perm
@@ -67,3 +76,4 @@ end BW.Props.C12
 #print axioms BW.Props.C12.limit_prefix
 #print axioms BW.Props.C12.clauses_do_not_change_qualification
 #print axioms BW.Props.C12.pushdown_only_when_harmless
+#print axioms BW.Props.C12.order_by_sorted
